@@ -72,7 +72,8 @@ type Case struct {
 }
 
 type engine struct {
-	safeRanged bool // of the case being executed
+	rangedSkipped, rangedPartial int
+	safeRanged                   bool // of the case being executed
 	shortWrite bool
 	base       string
 	n          int
@@ -624,7 +625,11 @@ func (w *world) apply(op Op) (crashed bool, fail string) {
 				end = n - 1
 			}
 			if op.A > 0 || 2*end+2 < n || n == 0 {
+				w.e.rangedSkipped++
 				return false, "" // would hit the known finding: skipped
+			}
+			if end < n-1 {
+				w.e.rangedPartial++ // something is left and rewritten
 			}
 		}
 		name := "clear-history"
@@ -918,7 +923,10 @@ func (e *engine) Execute(raw json.RawMessage) (vd harness.Verdict) {
 	if c.LineBuf > 0 {
 		a.probes["cases_with_small_line_buffer"]++
 	}
+	e.rangedSkipped, e.rangedPartial = 0, 0
 	defer func() {
+		a.probes["ranged_clear_skipped_known_finding"] += e.rangedSkipped
+		a.probes["ranged_clear_partial_executed"] += e.rangedPartial
 		vd.Hashes, vd.Evals, vd.Faults, vd.Probes = a.hashes, a.evals, a.faults, a.probes
 	}()
 	// Every case ends with a restart so that the last operations are checked.
@@ -1136,7 +1144,10 @@ func (e *engine) Shrink(raw json.RawMessage) (out []json.RawMessage) {
 		out = append(out, b)
 	}
 	clone := func() Case {
-		n := Case{NoFaults: c.NoFaults}
+		// (SafeRanged is kept: without it a ranged clear of the shrunk case
+		// would be executed in the range the known finding covers and the
+		// violation would be taken for that finding)
+		n := Case{NoFaults: c.NoFaults, SafeRanged: c.SafeRanged, LineBuf: c.LineBuf, ShortRead: c.ShortRead}
 		n.Ops = make([]Op, len(c.Ops))
 		copy(n.Ops, c.Ops)
 		if c.Pin != nil {
@@ -1154,6 +1165,16 @@ func (e *engine) Shrink(raw json.RawMessage) (out []json.RawMessage) {
 		if n.Pin != nil && n.Pin.Op >= hi {
 			n.Pin.Op -= hi - lo
 		}
+		emit(n)
+	}
+	if c.LineBuf > 0 {
+		n := clone()
+		n.LineBuf = 0
+		emit(n)
+	}
+	if c.ShortRead > 0 {
+		n := clone()
+		n.ShortRead = 0
 		emit(n)
 	}
 	// drop halves, quarters, single ops
